@@ -8,6 +8,7 @@ from lsim import core
 from lsim import sqlworld
 
 _mods = None
+_cache = {}
 
 
 class Mods(object):
@@ -38,6 +39,32 @@ def mods():
   return _mods
 
 
+def fresh_process():
+  """The cheap model of a new process: every module of the repository under test is dropped
+  and imported again (fresh module globals and class-level tables). Connections that only the old modules held
+  close. The harness' own cache of compiled plans (plain data: statements, edges) is kept:
+  compilation being a function of the text is C13's subject, not that of the engines using this."""
+  global _mods
+  import gc
+  doomed = []
+  for name, mod in list(sys.modules.items()):
+    f = getattr(mod, '__file__', None)
+    try:
+      paths = [str(x) for x in (getattr(mod, '__path__', None) or [])]
+    except Exception:
+      paths = []
+    if (f and f.startswith(core.REPO + os.sep)) or any(x.startswith(core.REPO) for x in paths):
+      doomed.append(name)
+  for name in doomed:
+    del sys.modules[name]
+  import importlib
+  importlib.invalidate_caches()
+  _mods = None
+  if len(sqlworld.LIVE):
+    gc.collect()     # connections that only the dropped modules (or dead frames) held close now
+  return mods()
+
+
 class Compiled(object):
   def __init__(self, text, preds):
     m = mods()
@@ -59,9 +86,6 @@ class Compiled(object):
       if member + suffix in names:
         return style
     return None
-
-
-_cache = {}
 
 
 def compiled(text, preds, use_cache=True):
